@@ -545,16 +545,146 @@ func keys(m map[int]bool) []int {
 
 var _ = bytes.Equal
 
+// ---- pipe: the same dialogue however its bytes are grouped into writes ----
+
+// PCase: a valid dialogue (as in 'cut') whose chunks (command lines, message data) are sent
+// in groups: the client writes Groups[i] chunks at once (in fragments of Frag bytes when
+// Frag > 0) and only then reads their replies.
+type PCase struct {
+	CCase
+	Groups []int `json:"groups"`
+	Frag   int   `json:"frag"`
+}
+
+var propPipe = hx.Prop[PCase]{
+	ID: pid, Name: "pipe",
+	Rule: "a generated valid dialogue of 1-3 transactions is sent with its command lines and message data grouped into writes of 1..all chunks " +
+		"(the final dot together with the next command, a whole transaction, the whole dialogue at once), optionally fragmented into writes " +
+		"of 1-7 bytes; a byte stream has no write boundaries, so the replies must be the lock-step ones (one per command line, 354 for DATA, " +
+		"250 after each final dot, 221 for QUIT) and every transaction must be stored complete; non-trivial = some write carries the end of a " +
+		"message together with the following command; distinct = distinct case JSON",
+	Quick: 150, Thorough: 1500,
+	Gen: func(t *rapid.T) PCase {
+		c := PCase{CCase: propCut.Gen(t)}
+		switch rapid.IntRange(0, 3).Draw(t, "mode") {
+		case 0:
+			c.Groups = []int{1000} // everything in one write
+		case 1:
+			c.Groups = rapid.SliceOfN(rapid.IntRange(1, 4), 1, 12).Draw(t, "groups")
+		default:
+			c.Groups = rapid.SliceOfN(rapid.SampledFrom([]int{1, 1, 2, 2, 3, 6}), 1, 12).Draw(t, "groups")
+		}
+		c.Frag = rapid.SampledFrom([]int{0, 0, 0, 1, 3, 7}).Draw(t, "frag")
+		return c
+	},
+	Run: func(c PCase) *hx.Outcome {
+		o := &hx.Outcome{}
+		chunks, datas := dialogue(c.CCase)
+		w, err := hx.NewWorld(cfgFor(c.Backend))
+		if err != nil {
+			o.Failf(pid+":harness", "world: %v", err)
+			return o
+		}
+		defer w.Close()
+		cl, _, err := w.DialSMTP()
+		if err != nil {
+			o.Failf(pid+":harness", "dial: %v", err)
+			return o
+		}
+		defer cl.Close()
+		i, g := 0, 0
+		crossing := false
+		for i < len(chunks) {
+			n := 1
+			if g < len(c.Groups) {
+				n = c.Groups[g]
+			}
+			g++
+			if i+n > len(chunks) {
+				n = len(chunks) - i
+			}
+			var buf []byte
+			for _, ch := range chunks[i : i+n] {
+				buf = append(buf, ch.b...)
+			}
+			for k := i; k < i+n-1; k++ {
+				if chunks[k].isData {
+					crossing = true
+				}
+			}
+			// the writer must not wait for the reader: replies are read as they come
+			werr := make(chan error, 1)
+			go func() {
+				if c.Frag <= 0 {
+					werr <- cl.Write(buf)
+					return
+				}
+				for off := 0; off < len(buf); off += c.Frag {
+					end := off + c.Frag
+					if end > len(buf) {
+						end = len(buf)
+					}
+					if err := cl.Write(buf[off:end]); err != nil {
+						werr <- err
+						return
+					}
+				}
+				werr <- nil
+			}()
+			for _, ch := range chunks[i : i+n] {
+				r, err := cl.ReadReply()
+				want := "2xx"
+				ok := err == nil && r.WellFormed && r.Class() == 2
+				if string(ch.b) == "DATA\r\n" {
+					want, ok = "354", err == nil && r.Code == 354
+				}
+				if !ok {
+					o.Failf(pid+":pipelined-reply", "[%s] chunks %d..%d written together (frag %d): %.30q answered %v (err %v), want %s", c.Backend, i, i+n-1, c.Frag, ch.b, r, err, want)
+					return o
+				}
+			}
+			if err := <-werr; err != nil {
+				o.Failf(pid+":pipelined-write", "write: %v", err)
+				return o
+			}
+			i += n
+		}
+		m := hx.NewEModel()
+		for i, x := range c.Txns {
+			var to []*mailAddr
+			for _, r := range x.Rcpts {
+				to = append(to, &mailAddr{Address: r})
+			}
+			for _, r := range x.Rcpts {
+				m.Add(&hx.EMsg{Mailbox: strings.SplitN(r, "@", 2)[0], From: &mailAddr{Address: "s@a.test"}, To: to,
+					Subject: fmt.Sprintf("cut %d", i), Sender: "s@a.test", Data: datas[i]})
+			}
+		}
+		if err := hx.CmpE2E(w.Store, m, nil); err != nil {
+			o.Failf(pid+":pipelined-store", "[%s] groups %v frag %d: %v", c.Backend, c.Groups, c.Frag, err)
+		}
+		o.NonTrivial = crossing
+		if crossing {
+			o.Class("end of data and next command in one write")
+		}
+		if c.Frag > 0 {
+			o.Class("fragmented writes")
+		}
+		return o
+	},
+}
+
 func TestProp(t *testing.T) {
 	t.Run("seq", propSeq.Check)
 	t.Run("cut", propCut.Check)
+	t.Run("pipe", propPipe.Check)
 }
-func TestRegress(t *testing.T) { propSeq.Regress(t); propCut.Regress(t) }
+func TestRegress(t *testing.T) { propSeq.Regress(t); propCut.Regress(t); propPipe.Regress(t) }
 func TestReplay(t *testing.T) {
 	if *hx.ReplayPath == "" {
 		t.Skip("no -replay")
 	}
-	if !propSeq.Replay(t, *hx.ReplayPath) && !propCut.Replay(t, *hx.ReplayPath) {
+	if !propSeq.Replay(t, *hx.ReplayPath) && !propCut.Replay(t, *hx.ReplayPath) && !propPipe.Replay(t, *hx.ReplayPath) {
 		t.Fatalf("no prop matches %s", *hx.ReplayPath)
 	}
 }
